@@ -113,6 +113,7 @@ def contracts():
     from contracts import C08
     cs += common.shared(C08, ['core.arg_val', 'core.chain_child'])
     cs += common.shared(X_ctor, ['matching.CheckError.__init__'])
+    cs += common.shared(X_ctor, ['matching.TypeMatchError.__init__'])
     return cs
 
 
